@@ -276,3 +276,26 @@ int main(){ int bad=0; for(int n: {8, 9, 16}){ arr_real x(n); for(int i=0;i<n;++
     arr_cmplx h = hilbert(x); for(int i=0;i<n;++i) if(std::fabs(h[i].re - x[i]) > 1e-9){ if(!bad) std::printf("n=%d sample %d: re %g, x %g\\n", n, i, h[i].re, x[i]); ++bad; } }
   return bad?1:0; }
 '''
+
+
+@adapter(r'awgn<cmplx>.*noise_power')
+def awgn_power(o):
+    return HDR + '''
+// C19: awgn(x, snr) adds noise whose total power (both components) is power(x) / 10^(snr/10)
+int main(){ rng(3); const int n=200000; arr_cmplx x(n); for(int i=0;i<n;++i) x[i]=cmplx_t{std::cos(0.1*i), std::sin(0.1*i)};
+  int bad=0; for(double snr: {0.0, 10.0, 20.0}){ arr_cmplx y = awgn(x, snr); double pn=0, ps=0; for(int i=0;i<n;++i){ cmplx_t d=y[i]-x[i]; pn+=d.re*d.re+d.im*d.im; ps+=x[i].re*x[i].re+x[i].im*x[i].im; }
+    double got = 10*std::log10(ps/pn); if(std::fabs(got-snr) > 0.2){ std::printf("requested %g dB, measured %g dB\\n", snr, got); ++bad; } }
+  return bad?1:0; }
+'''
+
+
+@adapter(r'FactorFFTPlan::solve/frame:this\._px')
+def shared_plan_race(o):
+    return '#include <thread>\n#include <vector>\n#include <atomic>\n' + HDR + '''
+// C09: a transform plan may be shared; concurrent const solve() calls return the single-threaded result
+int main(){ const int n=3003; FftPlan plan(n); std::vector<arr_cmplx> in; std::vector<arr_cmplx> ref;
+  for(int t=0;t<4;++t){ arr_cmplx x(n); for(int i=0;i<n;++i) x[i]=cmplx_t{std::sin(0.01*i*(t+1)), std::cos(0.02*i+t)}; in.push_back(x); ref.push_back(plan(x)); }
+  std::atomic<int> bad{0}; std::vector<std::thread> th;
+  for(int t=0;t<4;++t) th.emplace_back([&,t]{ for(int r=0;r<200;++r){ arr_cmplx y=plan(in[t]); for(int i=0;i<n;++i) if(y[i].re!=ref[t][i].re||y[i].im!=ref[t][i].im){ ++bad; break; } } });
+  for(auto& t: th) t.join(); if(bad){ std::printf("%d of 800 concurrent solves differ from the single-threaded result\\n", bad.load()); return 1; } return 0; }
+'''
